@@ -103,3 +103,11 @@ Print Assumptions C03_rdy_range.
 
 Example C03_witness_rdy_wrap : rdy_param 2500 [49;56;52;52;54;55;52;52;48;55;51;55;48;57;53;53;49;54;49;55] = RdyInvalid.
 Proof. vm_compute. reflexivity. Qed.
+
+(* The model is tied to the CURRENT source: the order-of-effects facts about nsqd's core
+   functions that the model assumes (proofs/CoreSrcDefs.v) hold of the statement skeletons
+   regenerated from /repo on this run (gen/CoreShape.v). *)
+From NSQV Require proofs.CoreSrcDefs proofs.CoreSrcC03.
+Theorem C03_source_shape : CoreSrcDefs.src_facts_C03.
+Proof. exact CoreSrcC03.src_C03. Qed.
+Print Assumptions C03_source_shape.
